@@ -85,6 +85,15 @@ func evalFast(pad bool, hs int, buf []byte) {
 				wantErr = true
 			} else {
 				ps = int(buf[n-1])
+				if ps == 0 { // RFC 3550: the padding count includes itself; refused since the fix, as pion does
+					wantErr = true
+					if err == nil {
+						ctx.Failf(idx, "fast-rtp-accepts-zero-padding-size", in,
+							"padding flag set and last byte 0: fastRTPUnmarshal accepts the packet (PaddingSize=%d, payload %d bytes) instead of refusing it; headerSize=%d len=%d",
+							pkt.Header.PaddingSize, len(pkt.Payload), hs, n)
+						return
+					}
+				}
 			}
 		}
 		if !wantErr && n-ps < hs {
@@ -230,6 +239,8 @@ func evalRTP(buf []byte, tag string) {
 		kind += "fast-err"
 		if perr == nil {
 			ctx.Failf(idx, "fast-rtp-disagrees-with-pion", in, "fastRTPUnmarshal fails (%v) but pion's Packet.Unmarshal accepts %s", ferr, hexs(buf))
+		} else if (ferr.Error() == "invalid RTP padding") != (rtpErrClass(perr) == 4) {
+			ctx.Failf(idx, "fast-rtp-disagrees-with-pion", in, "different kind of error: fastRTPUnmarshal %q, pion's Packet.Unmarshal %q on %s", ferr, perr, hexs(buf))
 		}
 	default:
 		kind += "ok"
@@ -241,15 +252,14 @@ func evalRTP(buf []byte, tag string) {
 			hs > len(buf)-ps || !bytes.Equal(fpkt.Payload, orig[hs:len(buf)-ps]) {
 			ctx.Failf(idx, "fast-rtp-wrong-payload", in, "payload (%d bytes, padding size %d) is not buf[%d:%d] of %s", len(fpkt.Payload), ps, hs, len(buf)-ps, hexs(buf))
 		}
-		if perr != nil {
-			if header.Padding && buf[len(buf)-1] == 0 && rtpErrClass(perr) == 4 {
-				_, merr := fpkt.Marshal()
-				ctx.Failf(idx, "fast-rtp-accepts-zero-padding-size", in,
-					"padding bit set and last byte 0: fastRTPUnmarshal accepts the packet (Padding=true, PaddingSize=0, payload %d bytes), pion's Packet.Unmarshal refuses it (%v); Marshal of the accepted packet: %v. packet=%s",
-					len(fpkt.Payload), perr, merr, hexs(buf))
-			} else {
-				ctx.Failf(idx, "fast-rtp-disagrees-with-pion", in, "fastRTPUnmarshal accepts, pion's Packet.Unmarshal refuses (%v): %s", perr, hexs(buf))
-			}
+		if header.Padding && buf[len(buf)-1] == 0 {
+			// live oracle of the repaired defect (fixed: see known_findings.d/auxparse.txt): must never fire
+			_, merr := fpkt.Marshal()
+			ctx.Failf(idx, "fast-rtp-accepts-zero-padding-size", in,
+				"padding bit set and last byte 0: fastRTPUnmarshal accepts the packet (Padding=true, PaddingSize=%d, payload %d bytes); pion's Packet.Unmarshal: %v; Marshal of the accepted packet: %v. packet=%s",
+				fpkt.Header.PaddingSize, len(fpkt.Payload), perr, merr, hexs(buf))
+		} else if perr != nil {
+			ctx.Failf(idx, "fast-rtp-disagrees-with-pion", in, "fastRTPUnmarshal accepts, pion's Packet.Unmarshal refuses (%v): %s", perr, hexs(buf))
 		} else {
 			if !bytes.Equal(fpkt.Payload, pp.Payload) || fpkt.Header.PaddingSize != pp.Header.PaddingSize || fpkt.PaddingSize != pp.PaddingSize ||
 				!headersEqual(&fpkt.Header, &pp.Header) {
@@ -785,7 +795,9 @@ func replay(lines []string) {
 // ---------------------------------------------------------------- main
 
 func corpus() {
-	// padding bit set, last byte 0 (RFC 3550: the count includes itself, 0 is invalid)
+	// regression case of the repaired finding fast-rtp-accepts-zero-padding-size: padding bit set, last byte 0
+	// (RFC 3550: the count includes itself, 0 is invalid); a0 60 0001 00000002 00000003 aa bb 00 must be refused
+	evalFast(true, 12, []byte{0xa0, 96, 0, 1, 0, 0, 0, 2, 0, 0, 0, 3, 0xaa, 0xbb, 0x00})
 	evalRTP([]byte{0xa0, 96, 0, 1, 0, 0, 0, 2, 0, 0, 0, 3, 0xaa, 0xbb, 0x00}, "corpus")
 	// padding larger than the payload, equal to it, one less
 	evalRTP([]byte{0xa0, 96, 0, 1, 0, 0, 0, 2, 0, 0, 0, 3, 0xaa, 0xbb, 0x04}, "corpus")
